@@ -53,7 +53,13 @@ def vc_next(prog, family='base', mpt=True, opt=True, max_dist_inf=False, min_lp_
         D = tm = None
         if len(mev) == 1:
             e = mev[0]
-            if mpt and opt:
+            want = {(True, True): 'distance', (True, False): 'distance_point_to_segment', (False, True): 'distance_point_to_segment',
+                    (False, False): 'distance_segment_to_segment'}[(bool(mpt), bool(opt))]
+            if e.fn != want:
+                # another metric function than the case requires: the wiring clause fails, the rest is stated over its distance
+                ok = False
+                D = e.result[0] if isinstance(e.result, tuple) else e.result
+            elif mpt and opt:
                 ok = zand(e.fn == 'distance', eq(e.args, (edge_m.f['p1'], edge_o.f['p1'])))
                 D = e.result
             elif mpt and not opt:
